@@ -6,6 +6,8 @@ mod message_processor;
 
 pub use connection::AsyncConnection;
 pub use error::ExitError;
+#[cfg(feature = "verif-hooks")]
+pub mod verif;
 
 use lsp_types::InitializeParams;
 use std::error::Error;
